@@ -805,8 +805,16 @@ def check_store_adapter(ctx, fb, rid="R06-11"):
     ctx.check(ok, rid, "SledDB::put", "put(k, v) = one unconditional sled insert of (k, v); Ok only if sled reported Ok", why, loc(it))
     n += 1
     # put_batch
-    it = fb.one(pre + r"put_batch$")
+    ok, why, it = batch_rule(fb, fb.one(pre + r"put_batch$"))
     ctx.touch(it)
+    ctx.check(ok, rid, "SledDB::put_batch", "put_batch(m) inserts every (k, v) of m, unconditionally, into one batch and applies it", why, loc(it))
+    n += 1
+    ctx.floor("store-adapter-ops", n, 3)
+
+
+def batch_rule(fb, it, insert_rx=r"sled::Batch::insert$", apply_rx=r"sled::(Tree|Db|db::Db)::apply_batch$"):
+    """every iteration inserts its own pair, exactly once and unconditionally; the batch is applied to self.0; Ok only if that succeeded"""
+    eng = Engine(fb, inline=lambda i: False)
     ok, why = True, ""
     paths = eng.run(it)
     body = [p for p in paths if p.kind == "backedge"]
@@ -824,7 +832,7 @@ def check_store_adapter(ctx, fb, rid="R06-11"):
     if not body:
         ok, why = False, "shape not recognised: no loop (or for_each closure) that fills the batch"
     for p in body:
-        ins = p.calls(r"sled::Batch::insert$")
+        ins = p.calls(insert_rx)
         cs = p.conds()
         nexts = [a for a, v in cs if isinstance(a, tuple) and a[0] == "ok" and a[1][0] == "call" and a[1][1].endswith("::next")]
         extra = [(a, v) for a, v in cs if a not in nexts]
@@ -849,7 +857,7 @@ def check_store_adapter(ctx, fb, rid="R06-11"):
             break
     if ok:
         for p in rets:
-            ap = p.calls(r"sled::(Tree|Db|db::Db)::apply_batch$")
+            ap = p.calls(apply_rx)
             rv = eng.value_of(p.store, p.ret)
             if len(ap) != 1 or ap[0][2][0] != F(P(1), "0"):
                 ok, why = False, "a return path does not apply the batch to self.0 exactly once"
@@ -859,9 +867,7 @@ def check_store_adapter(ctx, fb, rid="R06-11"):
             if rv[0] == "adt" and rv[2] == "Ok" and (not okc or okc[-1] is not True):
                 ok, why = False, "Ok is returned without sled's apply_batch having succeeded"
                 break
-    ctx.check(ok, rid, "SledDB::put_batch", "put_batch(m) inserts every (k, v) of m, unconditionally, into one batch and applies it", why, loc(it))
-    n += 1
-    ctx.floor("store-adapter-ops", n, 3)
+    return ok, why, it
 
 
 def check_subtree_root(ctx, fb):
@@ -1082,5 +1088,9 @@ def run(ctx):
         sub2 = Ctx(ctx.pid, ctx.tier)
         atomicity(sub2, fx, fx.need("zkfix::trees::Flagged::set_range_right_flags"), "fixture")
         ctx.fixture("R06-1-neg", not any(r.status == "fail" for r in sub2.results), "zkfix::trees::Flagged::set_range_right_flags (must be silent)")
+        okf, whyf, _ = batch_rule(fx, fx.need("zkfix::storage::Store::put_batch_skips"), r"zkfix::storage::Batch::insert$", r"zkfix::storage::Kv::apply_batch$")
+        ctx.fixture("R06-11", not okf, "zkfix::storage::Store::put_batch_skips (an iteration that skips its record must be seen)")
+        okg, whyg, _ = batch_rule(fx, fx.need("zkfix::storage::Store::put_batch_whole"), r"zkfix::storage::Batch::insert$", r"zkfix::storage::Kv::apply_batch$")
+        ctx.fixture("R06-11-neg", okg, "zkfix::storage::Store::put_batch_whole (must be silent)%s" % ("" if okg else ": " + whyg))
     except MissingAnchor as e:
         ctx.fixture("R06-1", False, "fixture missing: %s" % e)
